@@ -66,7 +66,8 @@ func VerifSnapshot(b policyapi.Backend) []string {
 		if len(ctrs) > 0 {
 			cl = strings.Join(ctrs, ",")
 		}
-		out = append(out, fmt.Sprintf("BB %s %d %s %s %s %d", verifWord(bln.Def.Name), bln.Instance, verifSet(bln.Cpus), verifSet(bln.SharedIdleCpus), cl, p.requestedMilliCpus(bln)))
+		out = append(out, fmt.Sprintf("BB %s %d %s %s %s %d %s", verifWord(bln.Def.Name), bln.Instance, verifSet(bln.Cpus), verifSet(bln.SharedIdleCpus), cl, p.requestedMilliCpus(bln),
+			verifSet(cpuset.New(bln.Mems.Members()...))))
 		for _, id := range ctrs {
 			hide := "?"
 			if c, ok := p.cch.LookupContainer(id); ok {
